@@ -7,7 +7,11 @@
 //! application-defined dialogs (`Kind::AppDialog`: Dialog + own Usage from a SUBSCRIBE, in-dialog requests incl. one with a
 //! CSeq gap that waits in the dialog's backlog, optionally a MESSAGE that makes the usage panic while it releases waiting
 //! requests; optionally a second dialog whose objects ANOTHER OS THREAD lets go of at the
-//! moment the first dialog's entry is being removed); every scenario's application objects may be dropped early, and the way
+//! moment the first dialog's entry is being removed); the To-tags on the responses to a UAC call (`PeerTags`: up to two
+//! further UAS of a forked INVITE ring with tags of their own, the final / 183 response comes from the UAS that rang, from a
+//! fork or from one never heard of, and that UAS writes its tag in the same / upper / mixed case as on its 180 - separately
+//! for the retransmission of the 2xx -, optionally with a To header that has gained a display name and a URI parameter) and
+//! the dialog's two tags as the peer of a UAS call writes them in its ACK / BYE (`InDialogTags`); every scenario's application objects may be dropped early, and the way
 //! the application lets go is a dimension of its own (`Exit`): the owning task is cancelled (objects dropped normally) or it
 //! PANICS (objects dropped while the thread unwinds; tokio confines the panic to that task). `FloodKind::HandlerPanics`:
 //! requests whose handling in the application's layer panics at one of six stages (before / after taking the request, owning
@@ -16,7 +20,8 @@
 //! Oracle: (quiescence) all seven table sizes are 0 after every handle is dropped and 64*T1 + 32 s + T4 + 64 s passed;
 //! (bound) at every 500 ms sample each table <= a per-scenario cap computed from the case alone (`bound`).
 //! Not asserted: what is on the wire, what the stack does with the peer's lifetime headers, exact table sizes, what happens
-//! to a request whose handler panicked (answered or not), which thread's drop completes first.
+//! to a request whose handler panicked (answered or not), which thread's drop completes first, whether the stack takes a
+//! respelled tag for the same dialog or for another one (how many dialogs / sessions a UAC call yields).
 
 use crate::engine::*;
 use crate::refmodel::ref_stun::{self, RAddr, RAttr, RClass, RMsg};
@@ -41,6 +46,12 @@ use std::net::SocketAddr;
 use std::sync::mpsc;
 use std::sync::Arc;
 use std::time::Duration;
+
+/// To-tags of the UAS of a UAC call (letters and digits, so that a spelling can differ): the one that rings, further ones a
+/// forking proxy reached, one that answers without having sent a 18x
+const UAS_TAG: &str = "ut7a";
+const FORK_TAGS: [&str; 2] = ["fk1b", "fk2c"];
+const STRANGER_TAG: &str = "ot9z";
 
 /// message of every panic this check raises on purpose (an application bug that is part of the generated scenario)
 pub const PLANNED_PANIC: &str = "c16-planned-application-panic";
@@ -174,6 +185,76 @@ pub enum ConnUse {
     Garbage,
 }
 
+/// how the peer writes a tag it has used before when it uses it again in a later message of the same call (a tag is an
+/// opaque token; a peer that changes its spelling is a different UAS by RFC 3261 19.3's byte-wise reading, the same one to
+/// a stack that compares tokens case-insensitively: either reading is accepted, nothing may be left behind under either)
+#[derive(Serialize, Deserialize, Clone, Copy, Debug, Hash, PartialEq, Eq, Default)]
+pub enum Spelling {
+    #[default]
+    Same,
+    Upper,
+    /// case alternates character by character, starting with upper case
+    Mixed,
+}
+
+impl Spelling {
+    fn of(&self, tag: &str) -> String {
+        match self {
+            Spelling::Same => tag.to_string(),
+            Spelling::Upper => tag.to_ascii_uppercase(),
+            Spelling::Mixed => tag.chars().enumerate().map(|(i, c)| if i % 2 == 0 { c.to_ascii_uppercase() } else { c.to_ascii_lowercase() }).collect(),
+        }
+    }
+}
+
+/// which UAS sends the response named by `UacCall::reply`
+#[derive(Serialize, Deserialize, Clone, Copy, Debug, Hash, PartialEq, Eq, Default)]
+pub enum Answerer {
+    /// the one that sent the 180 of `ring` (the only UAS there is without `ring` and forks)
+    #[default]
+    Ringing,
+    /// the first of the `forks` (with `forks == 0`: like `Ringing`)
+    Fork,
+    /// a UAS that has not been heard of before (its tag was on no 18x)
+    Stranger,
+}
+
+/// the To-tags (and To header) on the responses to a UAC call: the INVITE may have been forked, and a UAS may not write its
+/// tag / the To header the same way twice
+#[derive(Serialize, Deserialize, Clone, Copy, Debug, Hash, PartialEq, Eq, Default)]
+pub struct PeerTags {
+    /// this many further UAS answer 180 (own tag each) right behind the 180 of `ring`: more early dialogs
+    #[serde(default)]
+    pub forks: u8,
+    #[serde(default)]
+    pub answerer: Answerer,
+    /// spelling of the answerer's tag on the `reply` response, relative to its 180
+    #[serde(default)]
+    pub reply_spelling: Spelling,
+    /// spelling of the tag on the retransmission of the 2xx, relative to the 180
+    #[serde(default)]
+    pub retrans_spelling: Spelling,
+    /// the `reply` response (and its retransmission) carries a To header with a display name and a URI parameter the
+    /// request's To did not have (same tag)
+    #[serde(default)]
+    pub to_rewritten: bool,
+}
+
+impl PeerTags {
+    fn any(&self) -> bool {
+        *self != PeerTags::default()
+    }
+}
+
+/// how the peer of a UAS call writes the dialog's tags (its own From-tag and ezk's To-tag) in its ACK and BYE
+#[derive(Serialize, Deserialize, Clone, Copy, Debug, Hash, PartialEq, Eq, Default)]
+pub struct InDialogTags {
+    #[serde(default)]
+    pub local: Spelling,
+    #[serde(default)]
+    pub peer: Spelling,
+}
+
 #[derive(Serialize, Deserialize, Clone, Copy, Debug, Hash, PartialEq, Eq)]
 pub enum Kind {
     ClientNonInvite { reply: Reply, delay: u64 },
@@ -189,6 +270,9 @@ pub enum Kind {
         bye_at: Option<u64>,
         #[serde(default)]
         life: Lifetimes,
+        /// spelling of the dialog's tags in the peer's ACK / BYE
+        #[serde(default)]
+        tags: InDialogTags,
     },
     UacCall {
         ring: bool,
@@ -196,6 +280,8 @@ pub enum Kind {
         /// the peer's dialog-creating responses carry a Contact (without one they are malformed: no dialog)
         #[serde(default = "yes")]
         contact: bool,
+        #[serde(default)]
+        tags: PeerTags,
     },
     Flood {
         kind: FloodKind,
@@ -267,6 +353,34 @@ fn life_strategy() -> BoxedStrategy<Lifetimes> {
     .boxed()
 }
 
+fn spelling_strategy() -> BoxedStrategy<Spelling> {
+    prop_oneof![2 => Just(Spelling::Same), 1 => Just(Spelling::Upper), 1 => Just(Spelling::Mixed)].boxed()
+}
+
+/// 2 in 5 an ordinary peer (one UAS, one spelling, To as sent); else forks x who answers x spellings x rewritten To
+fn peer_tags_strategy() -> BoxedStrategy<PeerTags> {
+    prop_oneof![
+        2 => Just(PeerTags::default()),
+        3 => (
+            prop_oneof![3 => Just(0u8), 1 => Just(1u8), 1 => Just(2u8)],
+            prop_oneof![3 => Just(Answerer::Ringing), 1 => Just(Answerer::Fork), 1 => Just(Answerer::Stranger)],
+            spelling_strategy(),
+            spelling_strategy(),
+            prop::bool::weighted(0.25),
+        )
+            .prop_map(|(forks, answerer, reply_spelling, retrans_spelling, to_rewritten)| PeerTags { forks, answerer, reply_spelling, retrans_spelling, to_rewritten }),
+    ]
+    .boxed()
+}
+
+fn in_dialog_tags_strategy() -> BoxedStrategy<InDialogTags> {
+    prop_oneof![
+        3 => Just(InDialogTags::default()),
+        1 => (spelling_strategy(), spelling_strategy()).prop_map(|(local, peer)| InDialogTags { local, peer }),
+    ]
+    .boxed()
+}
+
 fn fam_strategy() -> BoxedStrategy<Fam> {
     prop_oneof![2 => Just(Fam::V4), 1 => Just(Fam::V6), 2 => Just(Fam::V4Mapped)].boxed()
 }
@@ -302,9 +416,10 @@ fn kind_strategy() -> BoxedStrategy<Kind> {
             prop::option::of(prop_oneof![Just(1u64), Just(40u64), Just(600u64)]),
             prop::option::of(prop_oneof![Just(2u64), Just(50u64), Just(2000u64)]),
             life_strategy(),
+            in_dialog_tags_strategy(),
         )
-            .prop_map(|(app, cancel_at, bye_at, life)| Kind::ServerCall { app, cancel_at, bye_at, life }),
-        3 => (any::<bool>(), reply_strategy(), prop::bool::weighted(0.75)).prop_map(|(ring, reply, contact)| Kind::UacCall { ring, reply, contact }),
+            .prop_map(|(app, cancel_at, bye_at, life, tags)| Kind::ServerCall { app, cancel_at, bye_at, life, tags }),
+        4 => (any::<bool>(), reply_strategy(), prop::bool::weighted(0.8), peer_tags_strategy()).prop_map(|(ring, reply, contact, tags)| Kind::UacCall { ring, reply, contact, tags }),
         3 => (
             prop::sample::select(FLOOD_KINDS.to_vec()),
             prop_oneof![Just(100u16), Just(300u16), Just(1000u16), Just(2000u16)],
@@ -346,10 +461,10 @@ pub fn flood_cases(_tier: Tier) -> Vec<Case> {
     let companions: Vec<Option<Kind>> = vec![
         None,
         Some(Kind::ClientNonInvite { reply: Reply::Never, delay: 1 }),
-        Some(Kind::ServerCall { app: CallApp::Hold, cancel_at: None, bye_at: None, life: none }),
-        Some(Kind::UacCall { ring: true, reply: Reply::Ok, contact: true }),
-        Some(Kind::UacCall { ring: true, reply: Reply::Ok, contact: false }),
-        Some(Kind::ServerCall { app: CallApp::Accept { ack: true }, cancel_at: None, bye_at: None, life: none }),
+        Some(Kind::ServerCall { app: CallApp::Hold, cancel_at: None, bye_at: None, life: none, tags: Default::default() }),
+        Some(Kind::UacCall { ring: true, reply: Reply::Ok, contact: true, tags: Default::default() }),
+        Some(Kind::UacCall { ring: true, reply: Reply::Ok, contact: false, tags: Default::default() }),
+        Some(Kind::ServerCall { app: CallApp::Accept { ack: true }, cancel_at: None, bye_at: None, life: none, tags: Default::default() }),
     ];
     for kind in FLOOD_KINDS {
         for n in [100u16, 1000, 2000] {
@@ -394,7 +509,7 @@ pub fn call_cases(_tier: Tier) -> Vec<Case> {
         for life in enum_lifetimes() {
             for drop_at in [None, Some(0u64), Some(600), Some(40_000)] {
                 for cancel_at in [None, Some(40u64)] {
-                    let call = Kind::ServerCall { app, cancel_at, bye_at: None, life };
+                    let call = Kind::ServerCall { app, cancel_at, bye_at: None, life, tags: Default::default() };
                     out.push(Case { atoms: vec![Atom { start: 0, kind: call, drop_at, exit: Exit::Dropped }], rng: out.len() as u8 });
                 }
             }
@@ -440,10 +555,10 @@ pub fn exit_cases(_tier: Tier) -> Vec<Case> {
         Kind::ClientInvite { reply: Reply::Ok, delay: 300 },
         Kind::ClientInvite { reply: Reply::Fail, delay: 700 },
         Kind::ServerRequest { copies: 2, life: none },
-        Kind::UacCall { ring: true, reply: Reply::Never, contact: true },
-        Kind::UacCall { ring: true, reply: Reply::Ok, contact: true },
-        Kind::UacCall { ring: false, reply: Reply::Ok, contact: false },
-        Kind::UacCall { ring: true, reply: Reply::Fail, contact: true },
+        Kind::UacCall { ring: true, reply: Reply::Never, contact: true, tags: Default::default() },
+        Kind::UacCall { ring: true, reply: Reply::Ok, contact: true, tags: Default::default() },
+        Kind::UacCall { ring: false, reply: Reply::Ok, contact: false, tags: Default::default() },
+        Kind::UacCall { ring: true, reply: Reply::Fail, contact: true, tags: Default::default() },
         Kind::Conn { inbound: false, fam: Fam::V4, usage: ConnUse::Requests },
         Kind::Conn { inbound: false, fam: Fam::V4Mapped, usage: ConnUse::PeerCloses },
         Kind::Conn { inbound: true, fam: Fam::V6, usage: ConnUse::Requests },
@@ -455,19 +570,62 @@ pub fn exit_cases(_tier: Tier) -> Vec<Case> {
         Kind::AppDialog { backlog: false, usage_bug: false, order: Order::DialogFirst, other: Some(OtherThread::DialogThenGuard) },
     ];
     for app in [CallApp::Accept { ack: true }, CallApp::Accept { ack: false }, CallApp::Reject, CallApp::DropAcceptor, CallApp::Hold] {
-        kinds.push(Kind::ServerCall { app, cancel_at: None, bye_at: None, life: none });
+        kinds.push(Kind::ServerCall { app, cancel_at: None, bye_at: None, life: none, tags: Default::default() });
     }
-    kinds.push(Kind::ServerCall { app: CallApp::Hold, cancel_at: Some(40), bye_at: None, life: long });
-    kinds.push(Kind::ServerCall { app: CallApp::Accept { ack: true }, cancel_at: None, bye_at: Some(2000), life: none });
+    kinds.push(Kind::ServerCall { app: CallApp::Hold, cancel_at: Some(40), bye_at: None, life: long, tags: Default::default() });
+    kinds.push(Kind::ServerCall { app: CallApp::Accept { ack: true }, cancel_at: None, bye_at: Some(2000), life: none, tags: Default::default() });
     let mut out = vec![];
     for kind in kinds {
         for drop_at in [None, Some(0u64), Some(600), Some(4000)] {
             for with_call in [false, true] {
                 let mut atoms = vec![Atom { start: 0, kind, drop_at, exit: Exit::Panics }];
                 if with_call {
-                    atoms.push(Atom { start: 10, kind: Kind::ServerCall { app: CallApp::Hold, cancel_at: None, bye_at: None, life: none }, drop_at: None, exit: Exit::Dropped });
+                    atoms.push(Atom { start: 10, kind: Kind::ServerCall { app: CallApp::Hold, cancel_at: None, bye_at: None, life: none, tags: Default::default() }, drop_at: None, exit: Exit::Dropped });
                 }
                 out.push(Case { atoms, rng: out.len() as u8 });
+            }
+        }
+    }
+    out
+}
+
+/// outgoing calls: ringing x forks x who answers with what x how it spells its tag (reply, retransmitted 2xx) x rewritten To
+/// x when / how the application lets go; plus accepted incoming calls x spelling of both tags in the peer's ACK / BYE
+pub fn uaccall_cases(_tier: Tier) -> Vec<Case> {
+    let mut out = vec![];
+    let sp = [Spelling::Same, Spelling::Upper, Spelling::Mixed];
+    for reply in [Reply::Ok, Reply::Provisional, Reply::Fail] {
+        for ring in [true, false] {
+            for forks in [0u8, 2] {
+                for answerer in [Answerer::Ringing, Answerer::Fork, Answerer::Stranger] {
+                    // (nobody rang: whoever answers is a UAS not heard of before, one such case is enough)
+                    if !ring && forks == 0 && answerer != Answerer::Ringing {
+                        continue;
+                    }
+                    for reply_spelling in sp {
+                        for retrans_spelling in if reply == Reply::Ok { &sp[..] } else { &sp[..1] } {
+                            for to_rewritten in [false, true] {
+                                let tags = PeerTags { forks, answerer, reply_spelling, retrans_spelling: *retrans_spelling, to_rewritten };
+                                let kind = Kind::UacCall { ring, reply, contact: true, tags };
+                                for (drop_at, exit) in [(None, Exit::Dropped), (None, Exit::Panics), (Some(30u64), Exit::Dropped), (Some(4000), Exit::Dropped)] {
+                                    out.push(Case { atoms: vec![Atom { start: 0, kind, drop_at, exit }], rng: out.len() as u8 });
+                                }
+                            }
+                        }
+                    }
+                }
+            }
+        }
+    }
+    for ack in [true, false] {
+        for local in sp {
+            for peer in sp {
+                for bye_at in [None, Some(2000u64)] {
+                    for drop_at in [None, Some(4000u64)] {
+                        let kind = Kind::ServerCall { app: CallApp::Accept { ack }, cancel_at: None, bye_at, life: Lifetimes::default(), tags: InDialogTags { local, peer } };
+                        out.push(Case { atoms: vec![Atom { start: 0, kind, drop_at, exit: Exit::Dropped }], rng: out.len() as u8 });
+                    }
+                }
             }
         }
     }
@@ -764,6 +922,10 @@ fn find_request(log: &WireLog, call_id: &str, method: &str) -> Option<WireMsg> {
 }
 
 fn peer_req(method: &str, branch: &str, call_id: &str, cseq: u32, to_tag: Option<&str>, extra: &[String]) -> Vec<u8> {
+    peer_req_from(method, branch, call_id, cseq, "ptag", to_tag, extra)
+}
+
+fn peer_req_from(method: &str, branch: &str, call_id: &str, cseq: u32, from_tag: &str, to_tag: Option<&str>, extra: &[String]) -> Vec<u8> {
     let to = match to_tag {
         Some(t) => format!("<sip:ezk@10.0.0.1>;tag={t}"),
         None => "<sip:ezk@10.0.0.1>".to_string(),
@@ -774,7 +936,7 @@ fn peer_req(method: &str, branch: &str, call_id: &str, cseq: u32, to_tag: Option
         method,
         "sip:ezk@10.0.0.1",
         &[format!("SIP/2.0/UDP 192.0.2.9:5060;branch={branch}")],
-        "<sip:peer@192.0.2.9>;tag=ptag",
+        &format!("<sip:peer@192.0.2.9>;tag={from_tag}"),
         &to,
         call_id,
         cseq,
@@ -782,6 +944,25 @@ fn peer_req(method: &str, branch: &str, call_id: &str, cseq: u32, to_tag: Option
         &e,
         b"",
     )
+}
+
+/// a response of one of the UAS of a UAC call; `to_rewritten`: the To header comes back with a display name and a URI
+/// parameter the request did not have
+fn uas_response(req: &WireMsg, code: u16, tag: &str, extra: &[String], to_rewritten: bool) -> Vec<u8> {
+    let bytes = response_text(req, code, Some(tag), extra);
+    if !to_rewritten {
+        return bytes;
+    }
+    let text = String::from_utf8_lossy(&bytes).into_owned();
+    let mut out = String::new();
+    for line in text.split_inclusive("\r\n") {
+        if line.starts_with("To:") {
+            out.push_str(&format!("To: \"Bob B.\" <sip:bob@192.0.2.9;user=phone>;tag={tag}\r\n"));
+        } else {
+            out.push_str(line);
+        }
+    }
+    out.into_bytes()
 }
 
 async fn run_atom(ctx: Ctx, i: usize, atom: Atom) {
@@ -840,7 +1021,7 @@ async fn run_atom(ctx: Ctx, i: usize, atom: Atom) {
                 inject(&endpoint, &udp, peer, &bytes);
             }
         }
-        Kind::ServerCall { app, cancel_at, bye_at, life } => {
+        Kind::ServerCall { app, cancel_at, bye_at, life, tags } => {
             let call_id = format!("call-{i}");
             let branch = format!("z9hG4bKcall{i}");
             let mut extra = vec!["Supported: timer".to_string()];
@@ -870,11 +1051,14 @@ async fn run_atom(ctx: Ctx, i: usize, atom: Atom) {
                             let ack_it = code >= 300 || matches!(app, CallApp::Accept { ack: true });
                             if ack_it {
                                 let b = if code >= 300 { branch.clone() } else { format!("{branch}ack") };
-                                inject(&endpoint, &udp, peer, &peer_req("ACK", &b, &call_id, 1, f.to_tag().as_deref(), &[]));
+                                // (the dialog's tags the way this peer writes them in its in-dialog requests)
+                                let local = f.to_tag().map(|t| tags.local.of(&t));
+                                inject(&endpoint, &udp, peer, &peer_req_from("ACK", &b, &call_id, 1, &tags.peer.of("ptag"), local.as_deref(), &[]));
                             }
                             if let (Some(b), true) = (bye_at, code < 300) {
                                 clock.until(t0 + b).await;
-                                inject(&endpoint, &udp, peer, &peer_req("BYE", &format!("{branch}bye"), &call_id, 2, f.to_tag().as_deref(), &[]));
+                                let local = f.to_tag().map(|t| tags.local.of(&t));
+                                inject(&endpoint, &udp, peer, &peer_req_from("BYE", &format!("{branch}bye"), &call_id, 2, &tags.peer.of("ptag"), local.as_deref(), &[]));
                             }
                             break;
                         }
@@ -917,7 +1101,7 @@ async fn run_atom(ctx: Ctx, i: usize, atom: Atom) {
                 }
             }
         }
-        Kind::UacCall { ring, reply, contact: peer_sends_contact } => {
+        Kind::UacCall { ring, reply, contact: peer_sends_contact, tags } => {
             let local: SipUri = "sip:ezk@10.0.0.1".parse().unwrap();
             let contact: SipUri = "sip:ezk@10.0.0.1:5060".parse().unwrap();
             let target: SipUri = "sip:bob@192.0.2.9".parse().unwrap();
@@ -935,24 +1119,37 @@ async fn run_atom(ctx: Ctx, i: usize, atom: Atom) {
                     clock.advance(10).await;
                     let Some(req) = find_request(&log, &call_id, "INVITE") else { return };
                     let extra = if peer_sends_contact { vec!["Contact: <sip:bob@192.0.2.9>".to_string()] } else { vec![] };
+                    // the UAS the (possibly forked) INVITE reached, by their To-tags
+                    let answerer = match tags.answerer {
+                        Answerer::Ringing => UAS_TAG,
+                        Answerer::Fork if tags.forks > 0 => FORK_TAGS[0],
+                        Answerer::Fork => UAS_TAG,
+                        Answerer::Stranger => STRANGER_TAG,
+                    };
                     if ring {
-                        inject(&endpoint, &udp, peer, &response_text(&req, 180, Some("ut"), &extra));
+                        inject(&endpoint, &udp, peer, &uas_response(&req, 180, UAS_TAG, &extra, false));
+                    }
+                    for f in FORK_TAGS.iter().take(tags.forks as usize) {
+                        clock.advance(1).await;
+                        inject(&endpoint, &udp, peer, &uas_response(&req, 180, f, &extra, false));
+                    }
+                    if ring || tags.forks > 0 {
                         clock.advance(50).await;
                     }
+                    let tag = tags.reply_spelling.of(answerer);
                     match reply {
                         Reply::Never => {}
                         Reply::Provisional => {
-                            inject(&endpoint, &udp, peer, &response_text(&req, 183, Some("ut"), &extra));
+                            inject(&endpoint, &udp, peer, &uas_response(&req, 183, &tag, &extra, tags.to_rewritten));
                         }
                         Reply::Ok => {
-                            let ok = response_text(&req, 200, Some("ut"), &extra);
-                            inject(&endpoint, &udp, peer, &ok);
+                            inject(&endpoint, &udp, peer, &uas_response(&req, 200, &tag, &extra, tags.to_rewritten));
                             // the 2xx is retransmitted once (the application sends no ACK)
                             clock.advance(500).await;
-                            inject(&endpoint, &udp, peer, &ok);
+                            inject(&endpoint, &udp, peer, &uas_response(&req, 200, &tags.retrans_spelling.of(answerer), &extra, tags.to_rewritten));
                         }
                         Reply::Fail => {
-                            inject(&endpoint, &udp, peer, &response_text(&req, 486, Some("ut"), &extra));
+                            inject(&endpoint, &udp, peer, &uas_response(&req, 486, &tag, &extra, tags.to_rewritten));
                         }
                     }
                 });
@@ -1302,6 +1499,30 @@ pub fn run(case: &Case) -> Observed {
     })
 }
 
+/// the To-tags, as spelled, on the dialog-creating (101..299) responses of a UAC call
+fn uac_tag_spellings(ring: bool, reply: Reply, tags: &PeerTags) -> BTreeSet<String> {
+    let mut set = BTreeSet::new();
+    if ring {
+        set.insert(UAS_TAG.to_string());
+    }
+    for f in FORK_TAGS.iter().take(tags.forks as usize) {
+        set.insert(f.to_string());
+    }
+    let answerer = match tags.answerer {
+        Answerer::Ringing => UAS_TAG,
+        Answerer::Fork if tags.forks > 0 => FORK_TAGS[0],
+        Answerer::Fork => UAS_TAG,
+        Answerer::Stranger => STRANGER_TAG,
+    };
+    if matches!(reply, Reply::Provisional | Reply::Ok) {
+        set.insert(tags.reply_spelling.of(answerer));
+    }
+    if reply == Reply::Ok {
+        set.insert(tags.retrans_spelling.of(answerer));
+    }
+    set
+}
+
 /// generous upper bound of every table at time t, from the live scenarios only
 fn bound(case: &Case, t: u64) -> Counts {
     let mut b = Counts::default();
@@ -1324,10 +1545,13 @@ fn bound(case: &Case, t: u64) -> Counts {
                 b.cancellables += 1;
                 b.backlog += 1;
             }
-            Kind::UacCall { .. } => {
+            Kind::UacCall { ring, reply, tags, .. } => {
+                // one dialog per To-tag (as spelled) the peer put on a 101..299 response, at most one usage each
+                // (at least the 2 of an ordinary peer: early dialog + session)
+                let n = uac_tag_spellings(ring, reply, &tags).len().max(2);
                 b.tsx += 2;
-                b.dialogs += 2;
-                b.usages += 2;
+                b.dialogs += n;
+                b.usages += n;
             }
             Kind::Flood { kind, n, .. } => {
                 // only requests that get answered by a server transaction stay (64*T1) in the table; an abandoned INVITE
@@ -1412,6 +1636,9 @@ pub fn check(case: &Case, out: &mut CaseOut) {
     let mut panics_owning = false;
     let mut other_thread = false;
     let mut waits_in_backlog = false;
+    // a UAC call whose peer forks / respells its tag / rewrites To; a UAS call whose peer respells the tags in ACK / BYE
+    let mut uac_tags = false;
+    let mut uas_tags = false;
     if has_flood {
         out.class("flood");
     }
@@ -1441,7 +1668,50 @@ pub fn check(case: &Case, out: &mut CaseOut) {
         }
         // shapes of the peer-chosen-lifetime and connection dimensions
         match a.kind {
-            Kind::ServerCall { life, app, .. } => {
+            Kind::UacCall { ring, reply, contact, tags } => {
+                if tags.any() {
+                    out.class("uac-call:peer-tags-varied");
+                }
+                if tags.forks > 0 {
+                    out.class("uac-call:forked/several-early-dialogs");
+                }
+                if tags.to_rewritten && reply != Reply::Never {
+                    out.class("uac-call:to-header-rewritten");
+                }
+                // the UAS that answers has an early dialog (its 180 was seen)
+                let has_early = match tags.answerer {
+                    Answerer::Ringing => ring,
+                    Answerer::Fork => tags.forks > 0 || ring,
+                    Answerer::Stranger => false,
+                };
+                if reply != Reply::Never && !has_early && (ring || tags.forks > 0) {
+                    out.class("uac-call:answer-from-uas-without-early-dialog");
+                }
+                if has_early && reply != Reply::Never && tags.reply_spelling != Spelling::Same {
+                    out.class(match reply {
+                        Reply::Ok => "uac-call:early-dialog/2xx-tag-respelled",
+                        Reply::Provisional => "uac-call:early-dialog/18x-tag-respelled",
+                        _ => "uac-call:early-dialog/failure-tag-respelled",
+                    });
+                    if contact {
+                        uac_tags = true;
+                    }
+                }
+                if reply == Reply::Ok && tags.retrans_spelling != tags.reply_spelling {
+                    out.class("uac-call:2xx-retransmission-tag-respelled");
+                    if contact {
+                        uac_tags = true;
+                    }
+                }
+                if contact && (tags.forks > 0 || (tags.to_rewritten && reply != Reply::Never)) {
+                    uac_tags = true;
+                }
+            }
+            Kind::ServerCall { life, app, tags, .. } => {
+                if tags != InDialogTags::default() && matches!(app, CallApp::Accept { .. }) {
+                    out.class("uas-call:peer-respells-tags-in-dialog");
+                    uas_tags = true;
+                }
                 if life.any() {
                     out.class("uas-call:peer-lifetime-headers");
                 }
@@ -1529,7 +1799,7 @@ pub fn check(case: &Case, out: &mut CaseOut) {
     let conn_cleanup = case.atoms.iter().any(|a| matches!(a.kind, Kind::Conn { fam, usage, .. } if usage != ConnUse::Requests || fam != Fam::V4));
     let handler_panics = case.atoms.iter().any(|a| matches!(a.kind, Kind::Flood { kind: FloodKind::HandlerPanics, .. })) && planned > 0;
     let app_dialog = (other_thread || waits_in_backlog) && obs.flags.contains("app-dialog:established");
-    if (early_drop && (has_flood || never)) || (has_flood && case.atoms.len() >= 2) || long_life_unanswered || conn_cleanup || panics_owning || handler_panics || app_dialog {
+    if (early_drop && (has_flood || never)) || (has_flood && case.atoms.len() >= 2) || long_life_unanswered || conn_cleanup || panics_owning || handler_panics || app_dialog || uac_tags || uas_tags {
         out.nontrivial(case);
     }
     let peak = obs.samples.iter().fold(Counts::default(), |mut p, (_, c)| {
@@ -1605,22 +1875,24 @@ pub fn property() -> Property {
     Property {
         fuzz: vec![],
         id: "C16",
-        rule: "a case = workload of 3..12 overlapping scenarios on ONE endpoint (DialogLayer + InviteLayer + accepting application, datagram transport, connection factory and listener): client non-INVITE / INVITE transactions (peer never answers / provisional only / 200 / 486, after 1 ms .. 33 s), server requests with retransmissions, UAS calls (accept with/without ACK, reject, acceptor dropped, acceptor held; peer CANCEL / BYE), UAC calls through Initiator (ringing, 200 with retransmission, 486, silence), floods of 100..2000 orphan responses / stray ACKs / unmatched CANCELs / unknown requests / retransmissions / INVITEs the application takes and abandons unanswered at once, inbound and outbound connections (both ends IPv4, IPv6 or IPv4-mapped IPv6 as a dual-stack socket reports them; used for requests / handle held, never used, closed by the peer, fed bytes that are not SIP), STUN binding requests (answered or not), dialogs the application runs itself (SUBSCRIBE -> Dialog::new_server + 200 + an application Usage; the peer sends an in-order INFO and optionally one with a CSeq gap that waits in the dialog's backlog, optionally a further waiting one and then the missing MESSAGE whose handling makes the application's usage panic while the released requests are in the dialog layer's hands; optionally a second such dialog whose Dialog / usage guard / both are let go of - or which gets one more usage registered first - by ANOTHER OS THREAD that is started from the Drop of the first dialog's usage, i.e. - when the application drops the Dialog before the usage guard - while the first thread is inside the dialog layer removing the entry), floods of requests whose handling in the application's layer panics (6 stages: request not yet taken, taken, + server transaction, + dialog, + acceptor, + 180 sent). Every request the peer originates (call INVITE, MESSAGE, request floods) carries, 6 times out of 10, lifetime headers of the peer's choosing: Expires and/or Session-Expires and/or Min-SE, 0 s .. 2^32-1 s. Every scenario's application objects are optionally let go of 0 ms .. 40 s after its start, else when activity stops; HOW is generated per scenario: the owning task is cancelled (3 in 4) or it panics where it stands (1 in 4: the objects are dropped while the thread unwinds, tokio confines the panic to the task; for a connection handle: a task that owns it panics). Tables sampled every 500 ms of virtual time and once after everything is dropped and 64*T1 + 32 s + T4 + 64 s have passed. floods sub-check enumerates flood kind x size x companion scenario (+ request floods x lifetime headers); calls enumerates application behaviour x lifetime headers x drop time x CANCEL (+ MESSAGE x lifetime headers); conns enumerates direction x address family x use x drop time x start; exits enumerates 28 scenarios of every kind x drop time x alone / next to a held call, all let go of by a panicking task; appdialogs enumerates backlog x bug in the usage x drop order x what the other thread lets go of x drop time x cancelled / panicking. Non-trivial = a scenario let go of by a panic that really happened while it owned objects, or a handler-panic flood, or an application dialog with a request in its backlog or with a second thread, or an early drop together with a flood or a never-answering peer, or a flood next to another live scenario, or an unanswered call / abandoned-INVITE flood whose peer-chosen lifetime outlasts the observation, or a connection the stack must clean up by itself (unused, peer-closed, garbage, non-IPv4 spelling); distinct by workload.",
+        rule: "a case = workload of 3..12 overlapping scenarios on ONE endpoint (DialogLayer + InviteLayer + accepting application, datagram transport, connection factory and listener): client non-INVITE / INVITE transactions (peer never answers / provisional only / 200 / 486, after 1 ms .. 33 s), server requests with retransmissions, UAS calls (accept with/without ACK, reject, acceptor dropped, acceptor held; peer CANCEL / BYE), UAC calls through Initiator (ringing, 200 with retransmission, 486, silence; 3 in 5 with varied To-tags: 0..2 further UAS of a forked INVITE send a 180 with their own tag = more early dialogs, the 183 / 200 / 486 comes from the UAS that rang / the first fork / a UAS that sent no 18x, and carries that UAS's tag spelled as before / in upper case / in alternating case, the retransmitted 200 has a spelling of its own, 1 in 4 the To header of that response comes back with a display name and a URI parameter added), UAS calls whose peer (1 in 4) writes ezk's tag and / or its own tag in another case in its ACK and BYE, floods of 100..2000 orphan responses / stray ACKs / unmatched CANCELs / unknown requests / retransmissions / INVITEs the application takes and abandons unanswered at once, inbound and outbound connections (both ends IPv4, IPv6 or IPv4-mapped IPv6 as a dual-stack socket reports them; used for requests / handle held, never used, closed by the peer, fed bytes that are not SIP), STUN binding requests (answered or not), dialogs the application runs itself (SUBSCRIBE -> Dialog::new_server + 200 + an application Usage; the peer sends an in-order INFO and optionally one with a CSeq gap that waits in the dialog's backlog, optionally a further waiting one and then the missing MESSAGE whose handling makes the application's usage panic while the released requests are in the dialog layer's hands; optionally a second such dialog whose Dialog / usage guard / both are let go of - or which gets one more usage registered first - by ANOTHER OS THREAD that is started from the Drop of the first dialog's usage, i.e. - when the application drops the Dialog before the usage guard - while the first thread is inside the dialog layer removing the entry), floods of requests whose handling in the application's layer panics (6 stages: request not yet taken, taken, + server transaction, + dialog, + acceptor, + 180 sent). Every request the peer originates (call INVITE, MESSAGE, request floods) carries, 6 times out of 10, lifetime headers of the peer's choosing: Expires and/or Session-Expires and/or Min-SE, 0 s .. 2^32-1 s. Every scenario's application objects are optionally let go of 0 ms .. 40 s after its start, else when activity stops; HOW is generated per scenario: the owning task is cancelled (3 in 4) or it panics where it stands (1 in 4: the objects are dropped while the thread unwinds, tokio confines the panic to the task; for a connection handle: a task that owns it panics). Tables sampled every 500 ms of virtual time and once after everything is dropped and 64*T1 + 32 s + T4 + 64 s have passed. floods sub-check enumerates flood kind x size x companion scenario (+ request floods x lifetime headers); calls enumerates application behaviour x lifetime headers x drop time x CANCEL (+ MESSAGE x lifetime headers); conns enumerates direction x address family x use x drop time x start; exits enumerates 28 scenarios of every kind x drop time x alone / next to a held call, all let go of by a panicking task; appdialogs enumerates backlog x bug in the usage x drop order x what the other thread lets go of x drop time x cancelled / panicking; uaccalls enumerates UAC calls: 200 / 183 / 486 x ringing x forks {0,2} x who answers x spelling of its tag x spelling on the retransmitted 200 x rewritten To x let go (never / never, by a panic / 30 ms: between 180 and answer / 4 s), plus accepted UAS calls x spelling of either tag in ACK and BYE x ACK x BYE x drop time. Non-trivial = a UAC call (peer sends Contact) with forks, or whose answering UAS has an early dialog and respells its tag, or whose retransmitted 200 is spelled differently from the first, or with a rewritten To, or an accepted UAS call whose peer respells a tag in ACK / BYE, or a scenario let go of by a panic that really happened while it owned objects, or a handler-panic flood, or an application dialog with a request in its backlog or with a second thread, or an early drop together with a flood or a never-answering peer, or a flood next to another live scenario, or an unanswered call / abandoned-INVITE flood whose peer-chosen lifetime outlasts the observation, or a connection the stack must clean up by itself (unused, peer-closed, garbage, non-IPv4 spelling); distinct by workload.",
         assumptions: vec![
             "table sizes through the read-only hooks H3 (transactions, managed transports, pending STUN, dialogs, backlog, usages, pending-cancel entries)",
             "the bound is a generous per-scenario cap (e.g. 4 transactions per call) plus, for floods of requests the stack answers itself or the application abandons, one transaction per request for 64*T1 (no dialog / usage / pending-cancel entries: the application holds nothing of an abandoned INVITE); it detects growth with the number of unmatched messages, not off-by-one accounting",
             "lifetimes the peer states in Expires / Session-Expires / Min-SE are not among 'the longest protocol timer' the statement waits for (they are unbounded peer input); what the stack does with them (ignore, reject on expiry, ...) is not asserted, only that no table entry outlives the application objects + RFC transaction timers because of them",
             "connection addresses are whatever StreamingTransport::local_addr / peer_addr report; no assertion on which spelling ezk uses on the wire, only that the entry goes away (32 s idle timer, EOF, decode error)",
+            "a To-tag that comes back in another case is peer input like any other: RFC 3261 compares tags byte-wise (then the response belongs to another UAS / the ACK or BYE to no dialog), a lenient stack may take it for the same dialog; neither reading is asserted, the bound allows one dialog + one usage per spelling seen on a 101..299 response (at least 2), and quiescence must hold under both",
             "single-threaded cooperative schedule, with ONE exception: the AppDialog scenario's second OS thread. It is started and joined inside the Drop of the scenario's objects and synchronised by a rendezvous (the first thread signals from inside the application usage's Drop, the second answers 'about to let go', lets go, answers 'done'; the first thread waits for 'done' at most 25 ms of REAL time). On a stack that serialises the two threads by its lock the outcome does not depend on that wait (the second thread finishes after the first left the dialog layer; the wait just runs out), so the verdict on a correct stack is timing-independent; the wait only has to outlast the few instructions between 'about to let go' and the second thread's attempt for a stack that does not wait for the lock to be observed",
             "planned application panics carry the message PLANNED_PANIC and are removed from the panic record by the check itself; every other panic (on the case's thread, or in the second thread: panic/other-thread) is a failure as usual. Whether the request whose handler panicked gets an answer is not asserted",
         ],
-        explanation: "floods, calls, conns, exits and appdialogs sub-checks exhaustive over their products; workloads sampled",
+        explanation: "floods, calls, conns, exits, appdialogs and uaccalls sub-checks exhaustive over their products; workloads sampled",
         subs: vec![
             enum_sub("floods", flood_cases, check),
             enum_sub("calls", call_cases, check),
             enum_sub("conns", conn_cases, check),
             enum_sub("exits", exit_cases, check),
             enum_sub("appdialogs", appdialog_cases, check),
+            enum_sub("uaccalls", uaccall_cases, check),
             prop_sub("workload", strategy, 600, 20000, check),
         ],
     }
